@@ -148,9 +148,9 @@ def check_docs(stats, repo):
     dp = doc_productions(repo)
     cp = set(module_ir.PRODUCTIONS)
     for p in sorted(dp - cp):
-        stats.fail({"kind": "doc-production-not-in-grammar"}, {"production": str(p)}, "doc/grammar.md lists %s which the compiler's grammar lacks" % p)
+        stats.fail({"kind": "doc-production-not-in-grammar"}, {"production": str(p)}, "doc/grammar.md lists %s which the compiler's grammar lacks" % (p,))
     for p in sorted(cp - dp):
-        stats.fail({"kind": "grammar-production-not-in-doc"}, {"production": str(p)}, "the compiler's grammar has %s which doc/grammar.md lacks" % p)
+        stats.fail({"kind": "grammar-production-not-in-doc"}, {"production": str(p)}, "the compiler's grammar has %s which doc/grammar.md lacks" % (p,))
     for p in sorted(cp):
         stats.case(["doc-prod", str(p)], len(p.rhs) >= 1, ["doc:production"])
     # The token-pattern table and the reserved-word list of doc/grammar.md are
